@@ -436,7 +436,12 @@ def main(argv=None):
     extra = {}
     if hasattr(mod, "post") and not args.only:
         try:
-            extra = mod.post(args.tier, seed, failures) or {}
+            import inspect
+
+            if len(inspect.signature(mod.post).parameters) >= 4:
+                extra = mod.post(args.tier, seed, failures, dict(labels)) or {}
+            else:
+                extra = mod.post(args.tier, seed, failures) or {}
         except BaseException:
             harness_errors.append("post():\n" + traceback.format_exc())
 
